@@ -15,8 +15,8 @@ class SQLParser(Parser):
         ('left', OR),
         ('left', AND),
         ('right', UNOT),
-        ('left', EQUALS, NEQUALS),
-        ('nonassoc', LESS, LEQ, GREATER, GEQ, IN, NOT, BETWEEN, IS, IS_NOT, LIKE),
+        ('left', EQUALS, NEQUALS, IS, IS_NOT, IN, NOT, LIKE, BETWEEN),
+        ('left', LESS, LEQ, GREATER, GEQ),
         ('left', PLUS, MINUS),
         ('left', STAR, DIVIDE, MODULO),
         ('left', CONCAT),  # binds tighter than arithmetic and comparison (SQLite, MySQL with PIPES_AS_CONCAT)
@@ -580,7 +580,7 @@ class SQLParser(Parser):
         return Function(op=p.id.strip("`"), args=args)
 
     # arguments are optional in functions, so that things like `select database()` are possible
-    @_('expr BETWEEN expr AND expr')
+    @_('expr BETWEEN expr AND expr %prec BETWEEN')
     def expr(self, p):
         return BetweenOperation(args=(p.expr0, p.expr1, p.expr2))
 
